@@ -71,6 +71,9 @@ class Scenario:
         elif flags == 'path-user':
             self.base = os.path.join(self.top, 'elsewhere', 'pu')
             self.args += ['--user', '--path', self.base]
+        elif flags == 'path-rel-user':
+            self.base = os.path.join(self.cwd, 'rel', 'skills')
+            self.args += ['--user', '-p', 'rel/skills']
         self.skilldir = os.path.join(self.base, SKILL_NAME)
         self.tree = embedded_tree()
         self.dest = [os.path.join(self.skilldir, rel) for rel in sorted(self.tree)]
@@ -84,13 +87,23 @@ class Scenario:
         # bystanders that must never be touched
         open(os.path.join(self.home, 'bystander.txt'), 'w').write('home bystander\n')
         open(os.path.join(self.cwd, 'bystander.txt'), 'w').write('cwd bystander\n')
-        if self.prior in ('older', 'identical', 'unrelated'):
+        if self.prior in ('older', 'identical', 'unrelated', 'older-samesize'):
             os.makedirs(self.skilldir, exist_ok=True)
         if self.prior == 'older':
             for rel in self.tree:
                 p = os.path.join(self.skilldir, rel)
                 os.makedirs(os.path.dirname(p), exist_ok=True)
                 open(p, 'w').write('older version of %s\n' % rel)
+                os.chmod(p, 0o644)
+        elif self.prior == 'older-samesize':
+            # an earlier release whose files have exactly the length of today's, but other bytes
+            for rel in self.tree:
+                p = os.path.join(self.skilldir, rel)
+                os.makedirs(os.path.dirname(p), exist_ok=True)
+                b = bytearray(open(os.path.join(SKILL_SRC, rel), 'rb').read())
+                for i in range(0, len(b), 97):
+                    b[i] = ord('#') if b[i] != ord('#') else ord('-')
+                open(p, 'wb').write(bytes(b))
                 os.chmod(p, 0o644)
         elif self.prior == 'identical':
             for rel in self.tree:
@@ -317,8 +330,8 @@ def main_c16(tier):
             lines = []
             nruns = 0
             meta = {}
-            flagsets = ['default', 'user', 'path-rel', 'path-abs', 'path-user']
-            priors = ['absent', 'older', 'unrelated', 'base-is-file']
+            flagsets = ['default', 'user', 'path-rel', 'path-abs', 'path-user', 'path-rel-user']
+            priors = ['absent', 'older', 'older-samesize', 'unrelated', 'base-is-file']
             scs = []
             for agent in sorted(table):
                 for fl in flagsets:
